@@ -10,6 +10,7 @@ import (
 	"os"
 	"os/exec"
 	"sort"
+	"strconv"
 	"strings"
 
 	abci "github.com/tendermint/tendermint/abci/types"
@@ -115,11 +116,16 @@ func ReplayStream(s Stream, crashSeed int64) (digests []string, parts [][]string
 		return nil, nil, "bad genesis: " + err.Error()
 	}
 	db := dbm.NewMemDB()
-	a := NewApp(db)
+	// TSIM_NODE_CONFIG: the replica is another operator's node, with that node-local configuration
+	variant := 0
+	if v, err := strconv.Atoi(os.Getenv("TSIM_NODE_CONFIG")); err == nil {
+		variant = v
+	}
 	var rng *rand.Rand
 	if crashSeed != 0 {
 		rng = rand.New(rand.NewSource(crashSeed))
 	}
+	a := NewAppVariant(db, variant)
 	defer func() {
 		if r := recover(); r != nil {
 			halt = fmt.Sprintf("panic at block %d: %v", len(digests), r)
@@ -158,7 +164,7 @@ func ReplayStream(s Stream, crashSeed int64) (digests []string, parts [][]string
 			} else {
 				a.BeginBlock(bb)
 			}
-			a = NewApp(db)
+			a = NewAppVariant(db, variant)
 		}
 		rb, rs := run(-1)
 		re := a.EndBlock(abci.RequestEndBlock{Height: bb.Header.Height})
@@ -170,7 +176,7 @@ func ReplayStream(s Stream, crashSeed int64) (digests []string, parts [][]string
 		digests = append(digests, d)
 		parts = append(parts, p)
 		if rng != nil && rng.Intn(5) == 0 {
-			a = NewApp(db) // clean restart between blocks
+			a = NewAppVariant(db, variant) // clean restart between blocks
 		}
 	}
 	return digests, parts, ""
